@@ -288,6 +288,8 @@ def run(ctx):
 
     # ------------------------------------------------------------------ R6
     check_terminus_latch(ctx, 'C01.R6', rl)
+    from checks.recordloop import check_raw_record_fields
+    check_raw_record_fields(ctx, 'C01.R6', rl)
 
     # ------------------------------------------------------------------ R7
     setup = gmod.func('Group.setup')
